@@ -1,6 +1,6 @@
 (** non-vacuity for C08: concrete runs meeting the hypotheses of the theorems of Properties/C08.v *)
 From Coq Require Import List NArith ZArith Bool.
-From ApiFu Require Import Ws.WsTypes Ws.WsSpec Ws.WsModel Ws.WsProofs Ws.WsTheorems Ws.WsActors Ws.WsActorsProofs.
+From ApiFu Require Import Ws.WsTypes Ws.WsSpec Ws.WsModel Ws.WsProofs Ws.WsTheorems Ws.WsActors Ws.WsActorsProofs Ws.WsSys Ws.WsSysProofs.
 Import ListNotations.
 Open Scope list_scope.
 
@@ -53,6 +53,17 @@ Proof.
   exists (firstn 6 (tr PWs (conv PWs))), (VStart 2 1 DQuery), (skipn 7 (tr PWs (conv PWs))). vm_compute. auto.
 Qed.
 
+(** keep-alive ticks anywhere in a run: before the init (graphql-ws: silent; graphql-transport-ws: a
+    pong), after it (ka / pong), and the run still meets the Spec; [ws_ack_first] has such runs in
+    its scope *)
+Example tick_instance :
+  let ls p := [LTick; LFrame (Msg TInit 0 PayNone); LTick; LFrame (Msg (match p with PWs => TStart | PTws => TSubscribe end) 1 (PayDoc DSub)); LTick; LEmit 3] in
+  frames (tr PWs (ls PWs)) = [SAck; SKa; SKa; SKa; SData 1 (CEv 3 1)] /\
+  frames (tr PTws (ls PTws)) = [SPong; SAck; SPong; SPong; SData 1 (CEv 3 1)] /\
+  spec_verdict PWs (tr PWs (ls PWs)) = None /\ spec_verdict PTws (tr PTws (ls PTws)) = None /\
+  closed (fin PWs (ls PWs)) = false.
+Proof. vm_compute. intuition. Qed.
+
 (** a connection on which every init is refused: the hypothesis of [ws_nothing_without_init] *)
 Example refused_instance :
   let ls := [LFrame (Msg TInit 0 PayReject); LFrame (Msg TStart 1 (PayDoc DQuery)); LFrame (Msg TStop 1 PayNone)] in
@@ -75,5 +86,34 @@ Example way_out_reachable :
                        map g_stops (gs c') = [1] /\ List.length rest <= mu c.
 Proof.
   eexists. split; [vm_compute; reflexivity|]. split; [reflexivity|]. split; [reflexivity|].
+  eexists. split; [vm_compute; reflexivity|]. split; [repeat constructor|]. vm_compute. intuition.
+Qed.
+
+(** stage 3: a run of the joined system — init, a subscription, an event, a query whose two frames
+    are sent around a second event, stop (the goroutine sends its second data frame and its complete
+    only afterwards), the client drops, everybody terminates — with the interleaved bookkeeping and
+    the sequential trace side by side *)
+Definition joined_run : list ylabel :=
+  [YFrame (Msg TInit 0 PayNone); YInt IRSendOk; YInt IRSendOk; YInt IRReturn;
+   YFrame (Msg TStart 1 (PayDoc DSub)); YInt IRReturn; YEmit 0; YInt (IGDataOk 0);
+   YFrame (Msg TStart 2 (PayDoc DQuery)); YInt IRSendOk; YEmit 0; YInt IRSendOk; YInt IRReturn;
+   YFrame (Msg TStop 1 PayNone); YInt IRReturn; YInt (IGDataOk 0); YInt (IGCancel 0); YDrop].
+Definition joined_rest : list alabel :=
+  [IGCompleteOk 0; IReadFail; IWTakeOk; IWCloseMsg; IWDrainOk; IWDrainOk; IWDrainOk; IWDrainOk; IWDrainOk; IWDrainOk; IWDrainDone;
+   IWWaitDone; IWFinish].
+
+Example joined_instance :
+  exists y, yrun 100 PWs init_sys joined_run = Some y /\ ending (y_c y) = true /\ all_gone (y_c y) = false /\
+    y_hist y = [LFrame (Msg TInit 0 PayNone); LFrame (Msg TStart 1 (PayDoc DSub)); LEmit 1;
+                LFrame (Msg TStart 2 (PayDoc DQuery)); LEmit 1; LFrame (Msg TStop 1 PayNone)] /\
+    y_gcalls y = [[SData 1 (CEv 1 1); SData 1 (CEv 1 2)]] /\
+    owned 1 (tr PWs (y_hist y)) = [SData 1 (CEv 1 1); SData 1 (CEv 1 2); SComplete 1] /\
+    exists y', yrun 100 PWs y (map YInt joined_rest) = Some y' /\ Forall (fun a => internal a = true) joined_rest /\
+      all_gone (y_c y') = true /\ finished (y_c y') = true /\ closed (y_s y') = true /\
+      y_gcalls y' = [[SData 1 (CEv 1 1); SData 1 (CEv 1 2); SComplete 1]] /\
+      osends_to None (y_rcalls y') = [SAck; SKa] /\ osends_to (Some 3) (y_rcalls y') = [SData 2 (CRes 3); SComplete 2].
+Proof.
+  eexists. split; [vm_compute; reflexivity|]. split; [reflexivity|]. split; [reflexivity|]. split; [reflexivity|].
+  split; [reflexivity|]. split; [vm_compute; reflexivity|].
   eexists. split; [vm_compute; reflexivity|]. split; [repeat constructor|]. vm_compute. intuition.
 Qed.
